@@ -131,7 +131,19 @@ Proof. exact update_inplace_is_iterated_setattr. Qed.
    (iii)), update_/transform_/reset_ and the top-level helpers (their no-op,
    identity and "is iterated assignment" parts are proved above in full
    generality).  The correspondence check exercises all of these against the
-   implementation on every run. *)
+   implementation on every run.
+   ADDED LATER (below C05_examples; proofs in Inst/RefineMore{,2,3,4}.v), still for
+   scalar attributes with pool preparers / transforms and literal defaults:
+   transform_<a>, reset_<a>, del obj.a in place; update(**kws), transform(**fs),
+   reset() as wholes (final state and first error class); the copy-on-write
+   forms on flat receivers incl. the Err outcomes (error class of the
+   specification, fresh-only footprint; reset_/update/transform/reset() copy
+   forms for unfrozen classes only); invalidation of direct dependants with
+   literal defaults for with_<a> in place and obj.a = v.  STILL MISSING: nested
+   receivers for copy-on-write, frozen classes for the whole-call copy forms,
+   chains of invalidation and '*', default factories / mutable defaults,
+   transform_<a> on an attribute holding nothing, collections, nested spec
+   values / keywords / dict-as-arguments. *)
 Theorem C05_refines_partial : forall ct h0 l a c d k sp s v,
   nth_error (heap s) l = Some (OInst c d) -> lookup_cls ct c = Some k -> lookup_attr k a = Some sp ->
   NoDup (map fst d) -> aok (absv (heap s) (VRef l)) = true ->
